@@ -25,7 +25,7 @@ Proved here:
 * `type_rules_enforced_anywhere` with `null_must_be_first`, `null_alone_is_rejected`, `unions_do_not_nest`,
   `map_key_must_be_scalar`, `array_dimension_rules` — the union / map / array rules themselves
   (`YardlModel/TypeRules.lean`: one predicate per type node, over types whose names are primitives), and that a node
-  breaking them is rejected wherever it occurs.
+  breaking them is rejected wherever it occurs; `accepted_enum_is_well_formed` (what `validateEnums` guarantees).
 
 Tie (`checks/c09.py`): random types over primitive names (40 % of them rule-breaking) judged by `yardl validate` and by
 `TypeRules.typeOk` (verdicts must agree); one violation of each documented rule is injected into valid random packages at
@@ -98,6 +98,19 @@ theorem array_dimension_rules (canon : Canon) (t : Sur) (n : String) (k : Nat) (
     nodeOk canon (.array t (some (⟨some n, some k⟩ :: ⟨some (n ++ "x"), none⟩ :: ds))) = false ∧
     nodeOk canon (.array t (some (⟨some n, none⟩ :: ⟨some n, none⟩ :: ds))) = false := by
   constructor <;> simp [nodeOk, dimsOk, distinctStr]
+
+open Yardl.TypeRules in
+/-- what an accepted enum / flags definition guarantees (`validateEnums`): camelCase distinct symbols, distinct values, an
+    integer base type, and every value inside the base type's range -/
+theorem accepted_enum_is_well_formed (base : Option Prim) (values : List (String × Int)) (h : enumOk base values = true) :
+    (∀ v ∈ values, memberName v.1 = true) ∧ distinctStr (values.map (·.1)) = true ∧ distinctInt (values.map (·.2)) = true ∧
+    ∃ lo hi, (base.getD .int32).range = some (lo, hi) ∧ ∀ v ∈ values, lo ≤ v.2 ∧ v.2 ≤ hi := by
+  unfold enumOk at h
+  simp only [Bool.and_eq_true, List.all_eq_true] at h
+  obtain ⟨⟨⟨h1, h2⟩, h3⟩, h4⟩ := h
+  refine ⟨h1, h2, h3, ?_⟩
+  cases hb : base.getD .int32 <;> simp only [hb] at h4 <;> (try (simp at h4; done)) <;>
+    (refine ⟨_, _, rfl, ?_⟩; simpa [Prim.range] using h4)
 
 /-- non-vacuity: a well-formed nested type is accepted by the model -/
 example : TypeRules.typeOk (fun _ => some "p")
